@@ -266,6 +266,8 @@ struct Opt {
   int pred = -100;      // forced prediction scheme for every attribute (-100: default)
   std::vector<int> qbits;  // per attribute (0 = none)
   bool expert = true;
+  int explicit_att = -1;   // attribute quantised with SetAttributeExplicitQuantization(bits, explicit_dims < components, origin, range)
+  int explicit_dims = 0;
 };
 
 inline Opt gen_options(vrt::Rng &r, const Geom &g) {
@@ -312,7 +314,8 @@ inline Encoded encode(const Geom &g, const Opt &o) {
     enc->SetUseBuiltInAttributeCompression(o.builtin);
     if (o.split >= 0) enc->options().SetGlobalBool("split_mesh_on_seams", o.split != 0);
     for (int a = 0; a < (int)o.qbits.size(); ++a) {
-      if (o.qbits[a] > 0) enc->SetAttributeQuantization(a, o.qbits[a]);
+      if (a == o.explicit_att) { const float origin[4] = {-3000.f, -3000.f, -3000.f, -3000.f}; enc->SetAttributeExplicitQuantization(a, std::max(8, o.qbits[a]), o.explicit_dims, origin, 8000.f); }
+      else if (o.qbits[a] > 0) enc->SetAttributeQuantization(a, o.qbits[a]);
       else enc->options().SetAttributeInt(a, "quantization_bits", -1);
       if (o.pred != -100) enc->SetAttributePredictionScheme(a, o.pred);
     }
